@@ -184,7 +184,7 @@ def _alarm(_sig, _frm):
 def _worker(case):
     """Run the real implementation on one case, under a watchdog."""
     signal.signal(signal.SIGALRM, _alarm)
-    signal.setitimer(signal.ITIMER_REAL, CASE_TIMEOUT_S)
+    signal.setitimer(signal.ITIMER_REAL, float(getattr(_MOD, "CASE_TIMEOUT_S", CASE_TIMEOUT_S)))
     try:
         r = _MOD.run_impl(case)
         r.setdefault("viol", [])
@@ -419,7 +419,9 @@ def run_property(mod, tier="quick", seed=0, replay=None):
         tag = r["viol"][0].split(":")[0]
         f = match_known(c, r)
         if f is None and len(seen_sigs) < 3:
-            small = shrink_case(mod, c, still_fails(tag)) if hasattr(mod, "shrink") else c
+            # a hang costs a full watchdog period per shrink candidate: keep that search short
+            sb = 6 if (tag == "timeout" or r.get("timeout")) else 400
+            small = shrink_case(mod, c, still_fails(tag), budget=sb) if hasattr(mod, "shrink") else c
             rs = _worker_inline(mod, small)
             if not rs["viol"]:
                 small, rs = c, r
@@ -466,7 +468,8 @@ def run_property(mod, tier="quick", seed=0, replay=None):
         if found:
             c, r = found
             tag = r["viol"][0].split(":")[0]
-            small = shrink_case(mod, c, still_fails(tag)) if hasattr(mod, "shrink") else c
+            sb = 6 if (tag == "timeout" or r.get("timeout")) else 400
+            small = shrink_case(mod, c, still_fails(tag), budget=sb) if hasattr(mod, "shrink") else c
             rs = _worker_inline(mod, small)
             if not rs["viol"]:
                 small, rs = c, r
